@@ -9,7 +9,7 @@ static uint32_t c9_key(Buf *b) {
     Rsp r = run(b); b_free(&t); return r.rc == 0 ? g32(r.p + 10) : 0;
 }
 #define C09_MAXIDX 24
-typedef struct { uint32_t h; uint32_t attrs; uint16_t alg; uint16_t size; char auth[8]; int live; } C9Idx;
+typedef struct { uint32_t h; uint32_t attrs; uint16_t alg; uint16_t size; char auth[72]; int live; } C9Idx;
 static C9Idx c9[C09_MAXIDX];
 static uint32_t c9_evict;       /* persistent handle of the bystander object, 0 if none */
 
@@ -70,7 +70,9 @@ static void c9_define(Buf *b) {
     if (!h) h = 0x01500000u + rnd(64);
     uint32_t ah = chance(70) ? RH_OWNER : RH_PLATFORM; uint16_t alg = c10_algs[rnd(4)], size; int t;
     uint32_t attrs = c9_randattrs(&t, alg, &size, ah);
-    char auth[8]; int al = rnd(5); for (int q = 0; q < al; q++) auth[q] = 'a' + rnd(26); auth[al] = 0;
+    int adsz = alg == ALG_SHA1 ? 20 : alg == ALG_SHA256 ? 32 : alg == 0x000C ? 48 : 64;
+    char auth[72]; int al = chance(88) ? rnd(5) : adsz - 1 + rnd(3);   /* sometimes exactly as long as the name algorithm's digest, one less, one more */
+    for (int q = 0; q < al; q++) auth[q] = 'a' + rnd(26); auth[al] = 0;
     uint8_t pol[64]; int pl = chance(25) ? (alg == ALG_SHA1 ? 20 : alg == ALG_SHA256 ? 32 : alg == 0x000C ? 48 : 64) : 0; if (pl && chance(10)) pl--; for (int q = 0; q < pl; q++) pol[q] = rnd(256);
     cmd_begin(b, ST_SESSIONS, CC_NV_DefineSpace); b_u32(b, ah); auth_pw(b, "", 0); b_2b(b, auth, al);
     b_u16(b, 4 + 2 + 4 + 2 + pl + 2); b_u32(b, h); b_u16(b, alg); b_u32(b, attrs); b_2b(b, pol, pl); b_u16(b, size);
